@@ -12,6 +12,8 @@ use crate::value::V;
 
 pub struct C07;
 
+const C07_ENV: &str = "BPAF_VERIF_C07_FLAG";
+
 #[derive(Clone, Debug, PartialEq, Eq)]
 pub enum AltKind {
     /// required flag
@@ -49,6 +51,8 @@ pub struct Case {
     pub siblings: Vec<Node>,
     pub atoms: Vec<Atom>,
     pub scenario: &'static str,
+    /// the variable of the env-backed flag alternative is set while the line is parsed
+    pub env_set: bool,
 }
 
 fn str_arg(u: &mut Un, names: &mut Names) -> NamedSpec {
@@ -164,8 +168,24 @@ pub fn decode(bytes: &[u8]) -> Case {
             }
             3 => {
                 let name = names.cmd(&mut u);
+                let adjacent = repeated || u.chance(40);
                 let own = if u.bool() {
-                    vec![Node::Named(gen_named_leaf(&mut u, &mut names, NamedKind::Switch))]
+                    let mut sw = gen_named_leaf(&mut u, &mut names, NamedKind::Switch);
+                    // inside the command a short name may be reused that an argument among the
+                    // alternatives also has: `(-l N | run [-l])`
+                    let reuse = alts.iter().find_map(|a: &AltKind| match a {
+                        AltKind::G(n) => n.shorts.first().copied(),
+                        _ => None,
+                    });
+                    // (not for adjacent commands: an item behind their block could then be read
+                    // both ways)
+                    if let (Some(c), true, false) = (reuse, u.chance(90), adjacent) {
+                        if sw.longs.is_empty() {
+                            sw.longs.push(names.long(&mut u));
+                        }
+                        sw.shorts = vec![c];
+                    }
+                    vec![Node::Named(sw)]
                 } else {
                     vec![Node::Pure("none".into())]
                 };
@@ -174,13 +194,25 @@ pub fn decode(bytes: &[u8]) -> Case {
                     shorts: Vec::new(),
                     longs: Vec::new(),
                     help: None,
-                    adjacent: repeated || u.chance(40),
+                    adjacent,
                     level: Level::simple(Node::Seq(own)),
                 })
             }
             4 => AltKind::Wsw(gen_named_leaf(&mut u, &mut names, NamedKind::Switch)),
             _ => AltKind::Wopt(str_arg(&mut u, &mut names)),
         });
+    }
+    // one required-flag alternative may be backed by an environment variable; the variable is
+    // only set on lines that give exactly that alternative (what was typed still wins)
+    let env_alt: Option<usize> = if !repeated && !all_w && u.chance(60) {
+        alts.iter().position(|a| matches!(a, AltKind::F(_)))
+    } else {
+        None
+    };
+    if let Some(i) = env_alt {
+        if let AltKind::F(n) = &mut alts[i] {
+            n.envs.push(C07_ENV.to_owned());
+        }
     }
     let alt = Node::Alt(alts.iter().map(node_of).collect());
     let wrapped = match wrap {
@@ -245,6 +277,7 @@ pub fn decode(bytes: &[u8]) -> Case {
         }
     };
     let scenario;
+    let mut env_set = false;
     if repeated {
         let k = u.weighted(&[2, 3, 3, 2]);
         for _ in 0..k {
@@ -268,6 +301,10 @@ pub fn decode(bytes: &[u8]) -> Case {
             0 => scenario = "no-alternative-item",
             1 => {
                 let a = u.pick(&alts).clone();
+                env_set = match (&a, env_alt) {
+                    (AltKind::F(n), Some(i)) => matches!(&alts[i], AltKind::F(m) if m.id == n.id),
+                    _ => false,
+                };
                 let inst = instance(&mut u, &mut names, &a, false);
                 push_inst(inst, &mut floating, &mut cmd_tail);
                 scenario = "one-alternative";
@@ -317,16 +354,25 @@ pub fn decode(bytes: &[u8]) -> Case {
         siblings,
         atoms,
         scenario,
+        env_set,
     }
 }
 
-fn render(u: &mut Un, atoms: &[Atom]) -> Vec<Vec<u8>> {
+fn render(u: &mut Un, atoms: &[Atom], level: &Level) -> Vec<Vec<u8>> {
+    // a short name that is a flag in one place and an argument in another cannot take a glued
+    // value (`-av1` is reported as ambiguous, by design)
+    let (flags, args) = level.visible_shorts();
     let mut out = Vec::new();
     for a in atoms {
         match a {
             Atom::Cmd(c) => out.push(c.as_bytes().to_vec()),
             Atom::Occ(o) => {
-                let ss = spellings_for(o);
+                let mut ss = spellings_for(o);
+                if let Alias::Short(c) = &o.alias {
+                    if flags.contains(c) && args.contains(c) {
+                        ss.retain(|s| *s != Spelling::Glued);
+                    }
+                }
                 out.extend(spell(o, *u.pick(&ss)));
             }
         }
@@ -617,8 +663,16 @@ impl Prop for C07 {
             }
         };
         let mut u = Un::new(bytes);
-        let argv = render(&mut u, &case.atoms);
+        let argv = render(&mut u, &case.atoms, &case.level);
+        // the worker is single threaded and owns its environment
+        if case.env_set {
+            std::env::set_var(C07_ENV, "1");
+            ctx.class("env-backed-flag-typed-while-its-variable-is-set");
+        } else {
+            std::env::remove_var(C07_ENV);
+        }
         let got = run(&parser, &argv);
+        std::env::remove_var(C07_ENV);
         ctx.eval(1);
         if let Outcome::Panic { at, msg } = &got {
             return Verdict::fail(format!("panic@{}", at), msg.clone());
@@ -658,7 +712,7 @@ impl Prop for C07 {
     fn describe(&self, bytes: &[u8]) -> Value {
         let case = decode(bytes);
         let mut u = Un::new(bytes);
-        let argv = render(&mut u, &case.atoms);
+        let argv = render(&mut u, &case.atoms, &case.level);
         json!({
             "definition": show_level(&case.level),
             "argv": show_argv(&argv),
